@@ -523,6 +523,22 @@ class Sim(object):
                 'incomplete': md.get(T.INCOMPLETE_RECORDING),
                 'user': sorted([k, canon(v)] for k, v in md.items() if not k.startswith('_tape_recorder_'))}
 
+    @staticmethod
+    def recorded_at_of(md):
+        """the recording timestamp against the real UTC clock (the recorder reads the wall clock for it, not the scripted
+        `time()`): [text, seconds off UTC now] - the harness runs these histories in a non-UTC local time zone"""
+        import calendar
+        import datetime as _dt
+        import time as _time
+        from playback.tape_recorder import TapeRecorder as T
+        text = md.get(T.RECORDED_AT)
+        try:
+            fmt = '%Y-%m-%d %H:%M:%S.%f' if '.' in text else '%Y-%m-%d %H:%M:%S'
+            stamp = _dt.datetime.strptime(text, fmt)
+            return [text, calendar.timegm(stamp.timetuple()) - _time.time()]
+        except Exception as ex:       # absent / not a naive UTC timestamp text
+            return [repr(text), None]
+
     def outputs(self, outs):
         return sorted([o.key, self.rval(o.key, o.value)] for o in outs)
 
@@ -567,11 +583,13 @@ class Sim(object):
                 drawn = ctx.drawn
                 log = self.log_since(log0)
                 saved = None
+                recorded_at = None
                 save_ids = [i for k, i in spy.log[log0:] if k == 'save']
                 if save_ids:
                     try:
                         rec = spy.inner.get_recording(save_ids[0])
                         saved = {'data': self.data_of(rec), 'meta': self.meta_of(rec.get_metadata())}
+                        recorded_at = self.recorded_at_of(rec.get_metadata())
                     except Exception as ex:
                         if type(ex).__name__ != 'NoSuchRecording':
                             saved = {'fetch_error': type(ex).__name__}
@@ -596,7 +614,7 @@ class Sim(object):
                 twin_end = self.end_of(lambda: twin_target.execute(script))
                 out.append({'end': end, 'journal': journal, 'log': log, 'saved': saved, 'late': late, 'idle': idle, 'drawn': drawn,
                             'twinEnd': twin_end, 'twinJournal': ctx.journal,
-                            '_outcomes': outcomes, '_identity_ok': identity_ok})
+                            '_outcomes': outcomes, '_identity_ok': identity_ok, '_recorded_at': recorded_at})
             else:
                 n = run['rec']
                 real = None
@@ -657,11 +675,24 @@ def _method(fn):
 
 
 def run_case(case):
+    import os
+    import time as _time
+    tz0 = os.environ.get('TZ')
+    if case.get('tz'):
+        # the service runs in a local time zone other than UTC (timestamps in recordings are UTC all the same)
+        os.environ['TZ'] = case['tz']
+        _time.tzset()
     sim = Sim(case)
     try:
         return sim.run_history()
     finally:
         sim.close()
+        if case.get('tz'):
+            if tz0 is None:
+                os.environ.pop('TZ', None)
+            else:
+                os.environ['TZ'] = tz0
+            _time.tzset()
 
 
 # ------------------------------------------------------------------------------------------------------------------
